@@ -22,7 +22,7 @@ ACTION_CONSTRAINT EmitTree
 """
 
 
-def trees(chk, wd, name, depth, width, nodes, fits, stale, aborts=("arg", "cbthrow", "cbret", "gthrow")):
+def trees(chk, wd, name, depth, width, nodes, fits, stale, aborts=("arg", "cbthrow", "cbret", "gthrow", "catch")):
     cfg = os.path.join(wd, "MC_Calls_%s.cfg" % name)
     with open(cfg, "w") as f:
         f.write(CFG % {"depth": depth, "width": width, "nodes": nodes, "fits": "TRUE" if fits else "FALSE",
@@ -45,7 +45,9 @@ def tree_lines(hist):
         if k == "inv":
             L.append("inv %s %d" % (a["s"], 1 if a["poison"] else 0))
         elif k == "call":
-            L.append("call %s" % a["f"])
+            L.append("call %s %d" % (a["f"], 1 if a.get("catch") else 0))
+        elif k == "caught":
+            L.append("caught")
         elif k == "cbret":
             L.append("cbret %s" % a["how"])
         elif k in ("gret", "gthrow"):
